@@ -116,6 +116,12 @@ def scenarios(tier):
     for n in range(0, 26):
         probe = dict(msg(0x11, 'bam2', 0x55, 90), probe=True, after=n if n else None)
         items.append(({'dll': DLL, 'stacks': stacks3(1, 1, 1), 'base_lat': 1e-3, 'late_ok': True, 'msgs': small4 + [probe]}, 0))
+    # a slow blocking driver (5 ms per frame): one window of 255 packets keeps the job thread inside one pass for longer than
+    # the longest protocol timeout
+    for size in (15301, 15360, 20000):
+        sc = {'dll': DLL, 'stacks': stacks3(255, 255, 1), 'base_lat': 1e-3, 'send_cost': 0.005,
+              'msgs': [msg(0x10, 'p2p', 0x20, size)], 'horizon': 8.0}
+        items.append((sc, 0))
     # capacity: 8 (4) own sessions in flight, the 9th (5th) call at every point of the run,
     # with and without an inbound transfer completing meanwhile
     long8 = [msg(0x10, 'p2p', [0x20, 0x30, 0x21][i % 3], 300 + 60 * i) for i in range(8)]
